@@ -457,4 +457,870 @@ theorem d1F_complete {a b : Seq} {n : Nat} {x y : UInt8} (h : OneEdit a b n x y)
   | ins p s ha hb hx hp =>
     rw [d1F_symm b a, ha, hb]; exact d1F_del p s y
 
+/-! ## the packed cell -/
+
+theorem toNat_encode (s l : Nat) (o : Bool) (hs : s < 65536) (hl : l ≤ 65534) :
+    (encodeValues s l o).toNat = (if o then 0 else 4294967296) + s * 65536 + (65534 - l) := by
+  have hA : (UInt64.ofNat s <<< 16).toNat = s <<< 16 := by
+    rw [UInt64.toNat_shiftLeft, UInt64.toNat_ofNat_of_lt' (by simp [UInt64.size]; omega)]
+    have : (16 : UInt64).toNat % 64 = 16 := by decide
+    rw [this, Nat.shiftLeft_eq]
+    apply Nat.mod_eq_of_lt; omega
+  have hB : ((~~~UInt64.ofNat l - 1) &&& mask).toNat = 65534 - l := by
+    rw [UInt64.toNat_and, UInt64.toNat_sub, UInt64.toNat_not, UInt64.toNat_ofNat_of_lt' (by simp [UInt64.size]; omega)]
+    have h1 : mask.toNat = 2 ^ 16 - 1 := by decide
+    have h2 : (1 : UInt64).toNat = 1 := by decide
+    rw [h1, h2, Nat.and_two_pow_sub_one_eq_mod]
+    simp only [UInt64.size]
+    omega
+  have hAB : ((UInt64.ofNat s <<< 16) ||| ((~~~UInt64.ofNat l - 1) &&& mask)).toNat = s * 65536 + (65534 - l) := by
+    rw [UInt64.toNat_or, hA, hB, ← Nat.shiftLeft_add_eq_or_of_lt (by omega), Nat.shiftLeft_eq]
+  unfold encodeValues
+  cases o with
+  | true => simp only [Bool.not_true, Bool.false_eq_true, if_false, if_true]; rw [hAB]; omega
+  | false =>
+    simp only [Bool.not_false, if_true, Bool.false_eq_true, if_false]
+    rw [UInt64.toNat_or, hAB]
+    have h3 : inbit.toNat = 2 ^ 32 * 1 := by decide
+    rw [h3, Nat.or_comm, ← Nat.two_pow_add_eq_or_of_lt (by omega)]
+    omega
+
+theorem lt_two_pow_of_le {r i : Nat} (hr : r < 2 ^ 32) (hi : 32 ≤ i) : r < 2 ^ i :=
+  Nat.lt_of_lt_of_le hr (Nat.pow_le_pow_right (by decide) hi)
+
+/-- clearing bit 32 of a word below 2^33 -/
+theorem nat_clear_bit32 (r : Nat) (hr : r < 2 ^ 32) :
+    r &&& (2 ^ 64 - (2 ^ 32 + 1)) = r ∧ (2 ^ 32 + r) &&& (2 ^ 64 - (2 ^ 32 + 1)) = r := by
+  have hM : ∀ i, (2 ^ 64 - (2 ^ 32 + 1)).testBit i = (decide (i < 64) && !decide (32 = i)) := by
+    intro i
+    rw [Nat.testBit_two_pow_sub_succ (by decide), Nat.testBit_two_pow]
+  constructor
+  · apply Nat.eq_of_testBit_eq
+    intro i
+    rw [Nat.testBit_and, hM]
+    by_cases h : i < 32
+    · have h1 : i < 64 := by omega
+      have h2 : ¬ 32 = i := by omega
+      simp [h1, h2]
+    · rw [Nat.testBit_lt_two_pow (lt_two_pow_of_le hr (by omega))]; simp
+  · apply Nat.eq_of_testBit_eq
+    intro i
+    rw [Nat.testBit_and, hM]
+    by_cases h : i < 32
+    · have h1 : i < 64 := by omega
+      have h2 : ¬ 32 = i := by omega
+      rw [Nat.testBit_two_pow_add_gt h]
+      simp [h1, h2]
+    · by_cases h3 : i = 32
+      · subst h3; simp [Nat.testBit_lt_two_pow hr]
+      · have hlt : 2 ^ 32 + r < 2 ^ i := by
+          have : 2 ^ 33 ≤ 2 ^ i := Nat.pow_le_pow_right (by decide) (by omega)
+          omega
+        rw [Nat.testBit_lt_two_pow hlt, Nat.testBit_lt_two_pow (lt_two_pow_of_le hr (by omega))]
+        simp
+
+/-- complementing the low 16 bits -/
+theorem nat_xor_mask16 (y : Nat) (hy : y < 2 ^ 16) : (y ^^^ (2 ^ 16 - 1)) = 2 ^ 16 - (y + 1) := by
+  apply Nat.eq_of_testBit_eq
+  intro i
+  rw [Nat.testBit_xor, Nat.testBit_two_pow_sub_one, Nat.testBit_two_pow_sub_succ hy]
+  by_cases h : i < 16
+  · simp [h]
+  · have : y < 2 ^ i := Nat.lt_of_lt_of_le hy (Nat.pow_le_pow_right (by decide) (by omega))
+    simp [h, Nat.testBit_lt_two_pow this]
+
+theorem incpath_encode (s l : Nat) (o : Bool) (hs : s < 65536) (hl : l + 1 ≤ 65534) :
+    incpath (encodeValues s l o) = encodeValues s (l + 1) o := by
+  apply UInt64.toNat.inj
+  have h1 := toNat_encode s l o hs (by omega)
+  have h2 := toNat_encode s (l + 1) o hs hl
+  unfold incpath
+  rw [UInt64.toNat_sub_of_le _ _ (by rw [UInt64.le_iff_toNat_le, h1]; show 1 ≤ _; omega), h1, h2]
+  show _ - 1 = _
+  omega
+
+theorem incscore_encode (s l : Nat) (o : Bool) (hs : s + 1 < 65536) (hl : l ≤ 65534) :
+    incscore (encodeValues s l o) = encodeValues (s + 1) l o := by
+  apply UInt64.toNat.inj
+  have h1 := toNat_encode s l o (by omega) hl
+  have h2 := toNat_encode (s + 1) l o hs hl
+  unfold incscore
+  rw [UInt64.toNat_add, h1, h2]
+  have : (0x10000 : UInt64).toNat = 65536 := by decide
+  rw [this]
+  split <;> omega
+
+theorem setout_encode (s l : Nat) (o : Bool) (hs : s < 65536) (hl : l ≤ 65534) :
+    setout (encodeValues s l o) = encodeValues s l true := by
+  apply UInt64.toNat.inj
+  have h1 := toNat_encode s l o hs hl
+  have h2 := toNat_encode s l true hs hl
+  unfold setout
+  have hm : (~~~inbit).toNat = 2 ^ 64 - (2 ^ 32 + 1) := by decide
+  rw [UInt64.toNat_and, hm, h1, h2]
+  have hr : s * 65536 + (65534 - l) < 2 ^ 32 := by omega
+  have := nat_clear_bit32 _ hr
+  cases o with
+  | true => simp only [if_true, Nat.zero_add]; exact this.1
+  | false =>
+    simp only [Bool.false_eq_true, if_false, if_true, Nat.zero_add]
+    rw [Nat.add_assoc]; exact this.2
+
+theorem nat_and_bit32 (x : Nat) : x &&& 2 ^ 32 = if x.testBit 32 then 2 ^ 32 else 0 := by
+  apply Nat.eq_of_testBit_eq
+  intro i
+  rw [Nat.testBit_and, Nat.testBit_two_pow]
+  by_cases h : 32 = i
+  · subst h
+    cases hx : x.testBit 32 with
+    | false => simp only [Bool.false_and, Bool.false_eq_true, if_false, Nat.zero_testBit]
+    | true => simp only [Bool.true_and, if_true]; rw [Nat.testBit_two_pow]; rfl
+  · have hd : decide (32 = i) = false := by simp [h]
+    rw [hd, Bool.and_false]
+    cases hx : x.testBit 32 with
+    | false => simp only [Bool.false_eq_true, if_false, Nat.zero_testBit]
+    | true => simp only [if_true]; rw [Nat.testBit_two_pow, hd]
+
+theorem decode_encode (s l : Nat) (o : Bool) (hs : s < 65536) (hl : l ≤ 65534) :
+    decodeValues (encodeValues s l o) = (s, l, o) := by
+  have h1 := toNat_encode s l o hs hl
+  have hmask : mask.toNat = 2 ^ 16 - 1 := by decide
+  unfold decodeValues
+  refine Prod.ext ?_ (Prod.ext ?_ ?_)
+  · show ((encodeValues s l o >>> 16) &&& mask).toNat = s
+    rw [UInt64.toNat_and, UInt64.toNat_shiftRight, hmask, Nat.and_two_pow_sub_one_eq_mod, h1]
+    have : (16 : UInt64).toNat % 64 = 16 := by decide
+    rw [this, Nat.shiftRight_eq_div_pow]
+    cases o <;> simp <;> omega
+  · show (((encodeValues s l o + 1) ^^^ mask) &&& mask).toNat = l
+    rw [UInt64.toNat_and, UInt64.toNat_xor, UInt64.toNat_add, hmask, Nat.and_two_pow_sub_one_eq_mod,
+      Nat.xor_mod_two_pow, h1]
+    have h1' : (1 : UInt64).toNat = 1 := by decide
+    rw [h1']
+    have e : ((if o = true then 0 else 4294967296) + s * 65536 + (65534 - l) + 1) % 2 ^ 64 % 2 ^ 16 = 65535 - l := by
+      cases o <;> simp <;> omega
+    rw [e]
+    have e2 : (2 ^ 16 - 1) % 2 ^ 16 = 2 ^ 16 - 1 := by decide
+    rw [e2, nat_xor_mask16 _ (by omega)]
+    omega
+  · show ((encodeValues s l o &&& inbit) == 0) = o
+    have hb : inbit.toNat = 2 ^ 32 := by decide
+    have hr : s * 65536 + (65534 - l) < 2 ^ 32 := by omega
+    have hz : (encodeValues s l o &&& inbit).toNat = if o then 0 else 2 ^ 32 := by
+      rw [UInt64.toNat_and, hb, h1, nat_and_bit32]
+      cases o with
+      | true => simp only [if_true, Nat.zero_add]; rw [Nat.testBit_lt_two_pow hr]; rfl
+      | false =>
+        simp only [Bool.false_eq_true, if_false]
+        rw [Nat.add_assoc, show (4294967296 : Nat) = 2 ^ 32 from rfl, Nat.testBit_two_pow_add_eq,
+          Nat.testBit_lt_two_pow hr]; rfl
+    cases o with
+    | true =>
+      have : encodeValues s l true &&& inbit = 0 := UInt64.toNat.inj (by rw [hz]; rfl)
+      rw [this]; rfl
+    | false =>
+      have hne : ¬ (encodeValues s l false &&& inbit) = 0 := by
+        intro e; rw [e] at hz; simp at hz
+      simp [hne]
+
+/-- order of two packed cells with the same flag: lexicographic on (score, shorter length first) -/
+theorem encode_le_iff (s l s' l' : Nat) (o : Bool) (hs : s < 65536) (hs' : s' < 65536) (hl : l ≤ 65534) (hl' : l' ≤ 65534) :
+    encodeValues s l o ≤ encodeValues s' l' o ↔ (s < s' ∨ (s = s' ∧ l' ≤ l)) := by
+  rw [UInt64.le_iff_toNat_le, toNat_encode s l o hs hl, toNat_encode s' l' o hs' hl']
+  omega
+
+/-- an out-of-band cell is smaller than every in-band cell -/
+theorem encode_out_lt_in (s l s' l' : Nat) (hs : s < 65536) (hs' : s' < 65536) (hl : l ≤ 65534) (hl' : l' ≤ 65534) :
+    encodeValues s l true < encodeValues s' l' false := by
+  rw [UInt64.lt_iff_toNat_lt, toNat_encode s l true hs hl, toNat_encode s' l' false hs' hl']
+  simp only [if_true, Bool.false_eq_true, if_false]
+  omega
+
+/-! ## alignments and the textbook recurrence -/
+
+theorem better_iff (p q : Nat × Nat) : better p q = true ↔ (p.1 > q.1 ∨ (p.1 = q.1 ∧ p.2 ≤ q.2)) := by
+  simp [better]
+
+theorem best2_cases (p q : Nat × Nat) : best2 p q = p ∨ best2 p q = q := by
+  unfold best2; split <;> simp
+
+theorem best2_left (p q : Nat × Nat) : better (best2 p q) p = true := by
+  unfold best2; split
+  · rw [better_iff]; omega
+  · rename_i h
+    rw [better_iff] at h ⊢; omega
+
+theorem best2_right (p q : Nat × Nat) : better (best2 p q) q = true := by
+  unfold best2; split
+  · assumption
+  · rw [better_iff]; omega
+
+theorem better_trans {p q r : Nat × Nat} (h1 : better p q = true) (h2 : better q r = true) : better p r = true := by
+  rw [better_iff] at *; omega
+
+variable (m : UInt8 → UInt8 → Bool)
+
+theorem Ali.nil_left : ∀ b : Seq, Ali m [] b 0 b.length
+  | [] => .nil
+  | y :: bs => .gapA y (Ali.nil_left bs)
+
+theorem Ali.nil_right : ∀ a : Seq, Ali m a [] 0 a.length
+  | [] => .nil
+  | x :: as => .gapB x (Ali.nil_right as)
+
+theorem Ali.of_nil_left {b : Seq} {s l : Nat} (h : Ali m [] b s l) : s = 0 ∧ l = b.length := by
+  induction b generalizing s l with
+  | nil => cases h; exact ⟨rfl, rfl⟩
+  | cons y bs ih =>
+    cases h with
+    | gapA _ h' => have := ih h'; simp; omega
+
+theorem Ali.of_nil_right {a : Seq} {s l : Nat} (h : Ali m a [] s l) : s = 0 ∧ l = a.length := by
+  induction a generalizing s l with
+  | nil => cases h; exact ⟨rfl, rfl⟩
+  | cons x as ih =>
+    cases h with
+    | gapB _ h' => have := ih h'; simp; omega
+
+/-- **the textbook recurrence computes the optimum**: `lcsDP` is achieved by an alignment, and no alignment has
+a higher score, or the same score with fewer columns -/
+theorem lcsDP_opt (a b : Seq) :
+    Ali m a b (lcsDP m a b).1 (lcsDP m a b).2 ∧
+      ∀ s l, Ali m a b s l → better (lcsDP m a b) (s, l) = true := by
+  fun_induction lcsDP m a b with
+  | case1 b =>
+    refine ⟨Ali.nil_left m b, ?_⟩
+    intro s l h
+    have := Ali.of_nil_left m h
+    rw [better_iff]; simp; omega
+  | case2 x as =>
+    refine ⟨Ali.nil_right m (x :: as), ?_⟩
+    intro s l h
+    have := Ali.of_nil_right m h
+    rw [better_iff]; simp at this ⊢; omega
+  | case3 x as y bs d u l ihd ihu ihl =>
+    constructor
+    · rcases best2_cases (best2 (d.1 + (if m x y then 1 else 0), d.2 + 1) (u.1, u.2 + 1)) (l.1, l.2 + 1) with h | h
+      · rcases best2_cases (d.1 + (if m x y then 1 else 0), d.2 + 1) (u.1, u.2 + 1) with h' | h'
+        · rw [h, h']; exact .pair x y ihd.1
+        · rw [h, h']; exact .gapB x ihu.1
+      · rw [h]; exact .gapA y ihl.1
+    · intro s l' h
+      cases h with
+      | gapB _ h' =>
+        have := ihu.2 _ _ h'
+        refine better_trans (best2_left _ _) (better_trans (best2_right _ _) ?_)
+        rw [better_iff] at this ⊢; simp at this ⊢; omega
+      | gapA _ h' =>
+        have := ihl.2 _ _ h'
+        refine better_trans (best2_right _ _) ?_
+        rw [better_iff] at this ⊢; simp at this ⊢; omega
+      | pair _ _ h' =>
+        have := ihd.2 _ _ h'
+        refine better_trans (best2_left _ _) (better_trans (best2_left _ _) ?_)
+        rw [better_iff] at this ⊢; simp at this ⊢; omega
+
+theorem Ali.snocB {a b : Seq} {s l : Nat} (x : UInt8) (h : Ali m a b s l) : Ali m (a ++ [x]) b s (l + 1) := by
+  induction h with
+  | nil => exact .gapB x .nil
+  | gapB x' _ ih => exact .gapB x' ih
+  | gapA y' _ ih => exact .gapA y' ih
+  | pair x' y' _ ih => exact .pair x' y' ih
+
+theorem Ali.snocA {a b : Seq} {s l : Nat} (y : UInt8) (h : Ali m a b s l) : Ali m a (b ++ [y]) s (l + 1) := by
+  induction h with
+  | nil => exact .gapA y .nil
+  | gapB x' _ ih => exact .gapB x' ih
+  | gapA y' _ ih => exact .gapA y' ih
+  | pair x' y' _ ih => exact .pair x' y' ih
+
+theorem Ali.snocPair {a b : Seq} {s l : Nat} (x y : UInt8) (h : Ali m a b s l) :
+    Ali m (a ++ [x]) (b ++ [y]) (s + (if m x y then 1 else 0)) (l + 1) := by
+  induction h with
+  | nil => have := Ali.pair (m := m) x y .nil; simpa using this
+  | gapB x' _ ih => exact .gapB x' ih
+  | gapA y' _ ih => exact .gapA y' ih
+  | @pair x' y' a' b' s' l' _ ih =>
+    have := Ali.pair (m := m) x' y' ih
+    have e : s' + (if m x y then 1 else 0) + (if m x' y' then 1 else 0) = s' + (if m x' y' then 1 else 0) + (if m x y then 1 else 0) := by omega
+    rw [e] at this; exact this
+
+theorem Ali.reverse {a b : Seq} {s l : Nat} (h : Ali m a b s l) : Ali m a.reverse b.reverse s l := by
+  induction h with
+  | nil => exact .nil
+  | gapB x _ ih => rw [List.reverse_cons]; exact ih.snocB m x
+  | gapA y _ ih => rw [List.reverse_cons]; exact ih.snocA m y
+  | pair x y _ ih => rw [List.reverse_cons, List.reverse_cons]; exact ih.snocPair m x y
+
+theorem Ali.of_reverse {a b : Seq} {s l : Nat} (h : Ali m a.reverse b.reverse s l) : Ali m a b s l := by
+  have := h.reverse m; simpa using this
+
+theorem Ali.swap {a b : Seq} {s l : Nat} (h : Ali m a b s l) : Ali (fun x y => m y x) b a s l := by
+  induction h with
+  | nil => exact .nil
+  | gapB x _ ih => exact .gapA x ih
+  | gapA y _ ih => exact .gapB y ih
+  | pair x y _ ih => exact .pair (m := fun x y => m y x) y x ih
+
+theorem Ali.bounds {a b : Seq} {s l : Nat} (h : Ali m a b s l) :
+    s ≤ a.length ∧ s ≤ b.length ∧ l ≤ a.length + b.length ∧ a.length ≤ l ∧ b.length ≤ l ∧ s ≤ l := by
+  induction h with
+  | nil => simp
+  | gapB x _ ih => simp; omega
+  | gapA y _ ih => simp; omega
+  | pair x y _ ih => simp; split <;> omega
+
+theorem samenuc_comm (x y : UInt8) : samenuc x y = samenuc y x := by
+  unfold samenuc
+  simp only
+  by_cases h : 97 ≤ lowerAZ x ∧ lowerAZ x ≤ 122 ∧ 97 ≤ lowerAZ y ∧ lowerAZ y ≤ 122
+  · have h' : 97 ≤ lowerAZ y ∧ lowerAZ y ≤ 122 ∧ 97 ≤ lowerAZ x ∧ lowerAZ x ≤ 122 := ⟨h.2.2.1, h.2.2.2, h.1, h.2.1⟩
+    rw [if_pos h, if_pos h', Nat.and_comm]
+  · have h' : ¬ (97 ≤ lowerAZ y ∧ lowerAZ y ≤ 122 ∧ 97 ≤ lowerAZ x ∧ lowerAZ x ≤ 122) :=
+      fun e => h ⟨e.2.2.1, e.2.2.2, e.1, e.2.1⟩
+    rw [if_neg h, if_neg h']
+    by_cases e : lowerAZ x = lowerAZ y
+    · rw [e]
+    · have e' : ¬ lowerAZ y = lowerAZ x := fun h => e h.symm
+      rw [beq_eq_false_iff_ne.2 e, beq_eq_false_iff_ne.2 e']
+
+/-! ## soundness of the banded matrix -/
+
+/-- what a cell may hold: a well-formed out-of-band word (no claim), or an in-band word whose (score, length)
+is realised by an alignment of the two prefixes (given reversed) -/
+def Good (pa pb : Seq) (v : UInt64) : Prop :=
+  (∃ s l, v = encodeValues s l true ∧ s ≤ pa.length + pb.length ∧ l ≤ 30000 + (pa.length + pb.length)) ∨
+  (∃ s l, v = encodeValues s l false ∧ Ali m pa pb s l)
+
+theorem pick_mem (P : UInt64 → Prop) {a b c : UInt64} (ha : P a) (hb : P b) (hc : P c) : P (pick a b c).1 := by
+  unfold pick; split
+  · exact ha
+  · split
+    · exact hb
+    · exact hc
+
+theorem good_setout {pa pb : Seq} {v : UInt64} (hn : pa.length + pb.length ≤ 30000) (h : Good m pa pb v) :
+    Good m pa pb (setout v) := by
+  rcases h with ⟨s, l, rfl, hs, hl⟩ | ⟨s, l, rfl, ha⟩
+  · rw [setout_encode s l true (by omega) (by omega)]; exact .inl ⟨s, l, rfl, hs, hl⟩
+  · have := ha.bounds m
+    rw [setout_encode s l false (by omega) (by omega)]; exact .inl ⟨s, l, rfl, by omega, by omega⟩
+
+theorem good_outV (pa pb : Seq) : Good m pa pb outV := .inl ⟨0, 30000, rfl, by omega, by omega⟩
+
+theorem good_diag {pa pb : Seq} {v : UInt64} (x y : UInt8) (hn : pa.length + pb.length + 2 ≤ 30000)
+    (h : Good m pa pb v) :
+    Good m (x :: pa) (y :: pb) (if m x y then incscore (incpath v) else incpath v) := by
+  rcases h with ⟨s, l, rfl, hs, hl⟩ | ⟨s, l, rfl, ha⟩
+  · rw [incpath_encode s l true (by omega) (by omega)]
+    split
+    · rw [incscore_encode s (l + 1) true (by omega) (by omega)]
+      exact .inl ⟨s + 1, l + 1, rfl, by simp; omega, by simp; omega⟩
+    · exact .inl ⟨s, l + 1, rfl, by simp; omega, by simp; omega⟩
+  · have hb := ha.bounds m
+    rw [incpath_encode s l false (by omega) (by omega)]
+    have hp := Ali.pair (m := m) x y ha
+    split
+    · rename_i hm
+      rw [incscore_encode s (l + 1) false (by omega) (by omega)]
+      rw [if_pos hm] at hp
+      exact .inr ⟨s + 1, l + 1, rfl, hp⟩
+    · rename_i hm
+      rw [if_neg hm] at hp
+      exact .inr ⟨s, l + 1, rfl, hp⟩
+
+theorem good_up {pa pb : Seq} {v : UInt64} (y : UInt8) (hn : pa.length + pb.length + 1 ≤ 30000)
+    (h : Good m pa pb v) : Good m pa (y :: pb) (incpath v) := by
+  rcases h with ⟨s, l, rfl, hs, hl⟩ | ⟨s, l, rfl, ha⟩
+  · rw [incpath_encode s l true (by omega) (by omega)]
+    exact .inl ⟨s, l + 1, rfl, by simp; omega, by simp; omega⟩
+  · have hb := ha.bounds m
+    rw [incpath_encode s l false (by omega) (by omega)]
+    exact .inr ⟨s, l + 1, rfl, .gapA y ha⟩
+
+theorem good_left {pa pb : Seq} {v : UInt64} (x : UInt8) (hn : pa.length + pb.length + 1 ≤ 30000)
+    (h : Good m pa pb v) : Good m (x :: pa) pb (incpath v) := by
+  rcases h with ⟨s, l, rfl, hs, hl⟩ | ⟨s, l, rfl, ha⟩
+  · rw [incpath_encode s l true (by omega) (by omega)]
+    exact .inl ⟨s, l + 1, rfl, by simp; omega, by simp; omega⟩
+  · have hb := ha.bounds m
+    rw [incpath_encode s l false (by omega) (by omega)]
+    exact .inr ⟨s, l + 1, rfl, .gapB x ha⟩
+
+theorem good_edge {pa pb : Seq} {v : UInt64} (c : Prop) [Decidable c] (hn : pa.length + pb.length ≤ 30000)
+    (h : Good m pa pb v) : Good m pa pb (if c then setout v else v) := by
+  split
+  · exact good_setout m hn h
+  · exact h
+
+/-- interior cell -/
+theorem bandCell_good (lo hi : Int) {pa pb : Seq} (x y : UInt8) {diag up left : UInt64} (i j : Nat)
+    (hi' : i = pb.length + 1) (hj : j = pa.length + 1) (hn : pa.length + pb.length + 2 ≤ 30000)
+    (hd : Good m pa pb diag) (hu : Good m (x :: pa) pb up) (hl : Good m pa (y :: pb) left) :
+    Good m (x :: pa) (y :: pb) (bandCell lo hi i j (m x y) diag up left) := by
+  have hi0 : ¬ i = 0 := by omega
+  have hj0 : ¬ j = 0 := by omega
+  unfold bandCell
+  simp only [if_neg hi0, if_neg hj0]
+  apply good_edge m _ (by simp; omega)
+  apply pick_mem (Good m (x :: pa) (y :: pb))
+  · exact good_diag m x y hn hd
+  · split
+    · exact good_up m y (by simp; omega) hu
+    · exact good_outV m _ _
+  · split
+    · exact good_left m x (by simp; omega) hl
+    · exact good_outV m _ _
+
+theorem pick_row0 (j : Nat) (hj : j < 30000) :
+    (pick notavailV notavailV (encodeValues 0 j false)).1 = encodeValues 0 j false := by
+  have h : ¬ (encodeValues 0 j false ≤ notavailV) := by
+    unfold notavailV
+    rw [encode_le_iff 0 j 0 30000 false (by omega) (by omega) (by omega) (by omega)]; omega
+  unfold pick
+  have h1 : ¬ (notavailV ≥ notavailV ∧ notavailV ≥ encodeValues 0 j false) := fun e => h e.2
+  rw [if_neg h1, if_neg h]
+
+theorem pick_col0 (i : Nat) (hi : i < 30000) :
+    (pick notavailV (encodeValues 0 i false) notavailV).1 = encodeValues 0 i false := by
+  have h : ¬ (encodeValues 0 i false ≤ notavailV) := by
+    unfold notavailV
+    rw [encode_le_iff 0 i 0 30000 false (by omega) (by omega) (by omega) (by omega)]; omega
+  have h' : notavailV ≤ encodeValues 0 i false := by
+    unfold notavailV
+    rw [encode_le_iff 0 30000 0 i false (by omega) (by omega) (by omega) (by omega)]; omega
+  unfold pick
+  have h1 : ¬ (notavailV ≥ encodeValues 0 i false ∧ notavailV ≥ notavailV) := fun e => h e.1
+  rw [if_neg h1, if_pos h']
+
+theorem bandCell_row0_good (lo hi : Int) (pa : Seq) (j : Nat) (hj : j = pa.length) (hn : pa.length < 30000) :
+    Good m pa [] (bandCell lo hi 0 j false 0 0 0) := by
+  unfold bandCell
+  simp only [if_true]
+  apply good_edge m _ (by simp; omega)
+  rw [pick_row0 j (by omega), hj]
+  exact .inr ⟨0, pa.length, rfl, Ali.nil_right m pa⟩
+
+theorem bandCell_col0_good (lo hi : Int) (pb : Seq) (i : Nat) (hi' : i = pb.length) (h0 : i ≠ 0)
+    (hn : pb.length < 30000) :
+    Good m [] pb (bandCell lo hi i 0 false 0 0 0) := by
+  unfold bandCell
+  simp only [if_neg h0, if_true]
+  apply good_edge m _ (by simp; omega)
+  rw [pick_col0 i (by omega), hi']
+  exact .inr ⟨0, pb.length, rfl, Ali.nil_left m pb⟩
+
+/-- the cells of a row after the one of prefix `pa`, one per remaining symbol -/
+def TailGood (G : Seq → UInt64 → Prop) : Seq → Seq → List UInt64 → Prop
+  | _, [], r => r = []
+  | pa, x :: as, v :: r => G (x :: pa) v ∧ TailGood G (x :: pa) as r
+  | _, _ :: _, [] => False
+
+/-- a row from the cell of prefix `pa` on -/
+def RowGood (G : Seq → UInt64 → Prop) (pa as : Seq) : List UInt64 → Prop
+  | v :: r => G pa v ∧ TailGood G pa as r
+  | [] => False
+
+theorem rowGo_good (lo hi : Int) (i : Nat) (y : UInt8) (pb : Seq) (hi' : i = pb.length + 1) :
+    ∀ (as pa : Seq) (prev : List UInt64) (left : UInt64) (j : Nat), j = pa.length + 1 →
+      pa.length + as.length + pb.length + 1 ≤ 30000 →
+      RowGood (fun p v => Good samenuc p pb v) pa as prev → Good samenuc pa (y :: pb) left →
+      TailGood (fun p v => Good samenuc p (y :: pb) v) pa as (bandRowGo lo hi i y j left as prev) := by
+  intro as
+  induction as with
+  | nil =>
+    intro pa prev left j _ _ _ _
+    cases prev with
+    | nil => simp [bandRowGo, TailGood]
+    | cons d r => cases r <;> simp [bandRowGo, TailGood]
+  | cons x as ih =>
+    intro pa prev left j hj hn hprev hleft
+    match prev, hprev with
+    | diag :: up :: rest, ⟨hd, hu, hrest⟩ =>
+      simp only [bandRowGo, TailGood]
+      have hv := bandCell_good samenuc lo hi x y i j hi' hj (by simp at hn; omega) hd hu hleft
+      refine ⟨hv, ?_⟩
+      exact ih (x :: pa) (up :: rest) _ (j + 1) (by simp; omega) (by simp at hn ⊢; omega) ⟨hu, hrest⟩ hv
+
+theorem row0_good (lo hi : Int) :
+    ∀ (as pa : Seq) (j : Nat), j = pa.length → pa.length + as.length < 30000 →
+      RowGood (fun p v => Good samenuc p [] v) pa as (bandRow0 lo hi j as) := by
+  intro as
+  induction as with
+  | nil =>
+    intro pa j hj hn
+    exact ⟨bandCell_row0_good samenuc lo hi pa j hj (by simpa using hn), rfl⟩
+  | cons x as ih =>
+    intro pa j hj hn
+    have h := ih (x :: pa) (j + 1) (by simp; omega) (by simp at hn ⊢; omega)
+    refine ⟨bandCell_row0_good samenuc lo hi pa j hj (by omega), ?_⟩
+    show TailGood _ pa (x :: as) (bandRow0 lo hi (j + 1) as)
+    match hb : bandRow0 lo hi (j + 1) as, h with
+    | v :: r, ⟨h1, h2⟩ => exact ⟨h1, h2⟩
+
+theorem bandRow_good (lo hi : Int) (A : Seq) (i : Nat) (y : UInt8) (pb : Seq) (hi' : i = pb.length + 1)
+    (hn : A.length + pb.length + 2 ≤ 30000) (prev : List UInt64)
+    (h : RowGood (fun p v => Good samenuc p pb v) [] A prev) :
+    RowGood (fun p v => Good samenuc p (y :: pb) v) [] A (bandRow lo hi A i y prev) := by
+  have h0 : Good samenuc [] (y :: pb) (bandCell lo hi i 0 false 0 0 0) :=
+    bandCell_col0_good samenuc lo hi (y :: pb) i (by simp; omega) (by omega) (by simp; omega)
+  exact ⟨h0, rowGo_good lo hi i y pb hi' A [] prev _ 1 rfl (by simp; omega) h h0⟩
+
+theorem bandRows_good (lo hi : Int) (A : Seq) :
+    ∀ (bs pb : Seq) (i : Nat) (prev : List UInt64), i = pb.length + 1 →
+      A.length + pb.length + bs.length + 1 ≤ 30000 →
+      RowGood (fun p v => Good samenuc p pb v) [] A prev →
+      RowGood (fun p v => Good samenuc p (bs.reverse ++ pb) v) [] A (bandRows lo hi A i bs prev) := by
+  intro bs
+  induction bs with
+  | nil => intro pb i prev _ _ h; simpa [bandRows] using h
+  | cons y bs ih =>
+    intro pb i prev hi' hn h
+    have h1 := bandRow_good lo hi A i y pb hi' (by simp at hn; omega) prev h
+    have h2 := ih (y :: pb) (i + 1) _ (by simp; omega) (by simp at hn ⊢; omega) h1
+    simp only [bandRows, List.reverse_cons, List.append_assoc, List.singleton_append]
+    exact h2
+
+theorem tailGood_last (G : Seq → UInt64 → Prop) :
+    ∀ (as pa : Seq) (v : UInt64) (r : List UInt64), G pa v → TailGood G pa as r →
+      G (as.reverse ++ pa) ((v :: r).getLastD 0) := by
+  intro as
+  induction as with
+  | nil => intro pa v r hv hr; simp only [TailGood] at hr; subst hr; simpa using hv
+  | cons x as ih =>
+    intro pa v r hv hr
+    match r, hr with
+    | w :: r', ⟨hw, hr'⟩ =>
+      have := ih (x :: pa) w r' hw hr'
+      simp only [List.reverse_cons, List.append_assoc, List.singleton_append]
+      simpa [List.getLastD] using this
+
+theorem bandLast_good (lo hi : Int) (A B : Seq) (hn : A.length + B.length + 1 ≤ 30000) :
+    Good samenuc A.reverse B.reverse ((bandLast lo hi A B).getLastD 0) := by
+  have h0 := row0_good lo hi A [] 0 rfl (by simp; omega)
+  have h1 := bandRows_good lo hi A B [] 1 _ rfl (by simp; omega) h0
+  unfold bandLast
+  match hb : bandRows lo hi A 1 B (bandRow0 lo hi 0 A), h1 with
+  | v :: r, ⟨hv, hr⟩ =>
+    have := tailGood_last (fun p v => Good samenuc p (B.reverse ++ []) v) A [] v r hv hr
+    simpa using this
+
+theorem Ali.samenuc_swap {a b : Seq} {s l : Nat} (h : Ali samenuc a b s l) : Ali samenuc b a s l := by
+  have := h.swap samenuc
+  have e : (fun x y => samenuc y x) = samenuc := by funext x y; exact samenuc_comm y x
+  rw [e] at this; exact this
+
+theorem bandResult_sound {A B : Seq} {v : UInt64} {s l : Nat} (hn : A.length + B.length + 1 ≤ 30000)
+    (hg : Good samenuc A.reverse B.reverse v) (h : bandResult v = some (s, l)) : Ali samenuc A B s l := by
+  unfold bandResult at h
+  rcases hg with ⟨s', l', hv, hs, hl⟩ | ⟨s', l', hv, ha⟩
+  · rw [hv, decode_encode s' l' true (by simp at hs; omega) (by simp at hl; omega)] at h
+    simp at h
+  · have hb := ha.bounds samenuc
+    simp at hb
+    rw [hv, decode_encode s' l' false (by omega) (by omega)] at h
+    simp at h
+    rw [← h.1, ← h.2]
+    exact ha.of_reverse samenuc
+
+theorem bandLCSAB_sound (A B : Seq) (e : Int) (s l : Nat) (hn : A.length + B.length + 1 ≤ 30000)
+    (h : bandLCSAB A B e = some (s, l)) : Ali samenuc A B s l := by
+  unfold bandLCSAB at h
+  split at h
+  · simp at h
+  · exact bandResult_sound hn (bandLast_good _ _ A B hn) h
+
+/-- an answer of the banded matrix is never spurious: it is realised by an alignment -/
+theorem bandLCS_sound (a b : Seq) (e : Int) (s l : Nat) (hn : a.length + b.length + 1 ≤ 30000)
+    (h : bandLCS a b e = some (s, l)) : Ali samenuc a b s l := by
+  unfold bandLCS at h
+  split at h
+  · exact (bandLCSAB_sound b a e s l (by omega) h).samenuc_swap
+  · exact bandLCSAB_sound a b e s l hn h
+
+/-! ## generic row induction over the banded matrix -/
+
+section gen
+variable (G : Seq → Seq → UInt64 → Prop) (NA NB : Nat) (lo hi : Int)
+variable (hcell : ∀ (pa pb : Seq) (x y : UInt8) (diag up left : UInt64), pa.length + 1 ≤ NA → pb.length + 1 ≤ NB →
+    G pa pb diag → G (x :: pa) pb up → G pa (y :: pb) left →
+    G (x :: pa) (y :: pb) (bandCell lo hi (pb.length + 1) (pa.length + 1) (samenuc x y) diag up left))
+variable (hrow0 : ∀ pa : Seq, pa.length ≤ NA → G pa [] (bandCell lo hi 0 pa.length false 0 0 0))
+variable (hcol0 : ∀ pb : Seq, pb.length ≤ NB → pb ≠ [] → G [] pb (bandCell lo hi pb.length 0 false 0 0 0))
+include hcell
+
+theorem rowGo_gen (y : UInt8) (pb : Seq) (hpb : pb.length + 1 ≤ NB) :
+    ∀ (as pa : Seq) (prev : List UInt64) (left : UInt64), pa.length + as.length ≤ NA →
+      RowGood (fun p v => G p pb v) pa as prev → G pa (y :: pb) left →
+      TailGood (fun p v => G p (y :: pb) v) pa as (bandRowGo lo hi (pb.length + 1) y (pa.length + 1) left as prev) := by
+  intro as
+  induction as with
+  | nil =>
+    intro pa prev left _ _ _
+    cases prev with
+    | nil => simp [bandRowGo, TailGood]
+    | cons d r => cases r <;> simp [bandRowGo, TailGood]
+  | cons x as ih =>
+    intro pa prev left hn hprev hleft
+    match prev, hprev with
+    | diag :: up :: rest, ⟨hd, hu, hrest⟩ =>
+      simp only [bandRowGo, TailGood]
+      have hv := hcell pa pb x y diag up left (by simp at hn; omega) hpb hd hu hleft
+      refine ⟨hv, ?_⟩
+      exact ih (x :: pa) (up :: rest) _ (by simp at hn ⊢; omega) ⟨hu, hrest⟩ hv
+
+omit hcell in
+include hrow0 in
+theorem row0_gen :
+    ∀ (as pa : Seq), pa.length + as.length ≤ NA →
+      RowGood (fun p v => G p [] v) pa as (bandRow0 lo hi pa.length as) := by
+  intro as
+  induction as with
+  | nil => intro pa hn; exact ⟨hrow0 pa (by simpa using hn), rfl⟩
+  | cons x as ih =>
+    intro pa hn
+    have h := ih (x :: pa) (by simp at hn ⊢; omega)
+    refine ⟨hrow0 pa (by omega), ?_⟩
+    show TailGood _ pa (x :: as) (bandRow0 lo hi (pa.length + 1) as)
+    match hb : bandRow0 lo hi (pa.length + 1) as, h with
+    | v :: r, ⟨h1, h2⟩ => exact ⟨h1, h2⟩
+
+include hcol0 in
+theorem bandRows_gen (A : Seq) (hA : A.length ≤ NA) :
+    ∀ (bs pb : Seq) (prev : List UInt64), pb.length + bs.length ≤ NB →
+      RowGood (fun p v => G p pb v) [] A prev →
+      RowGood (fun p v => G p (bs.reverse ++ pb) v) [] A (bandRows lo hi A (pb.length + 1) bs prev) := by
+  intro bs
+  induction bs with
+  | nil => intro pb prev _ h; simpa [bandRows] using h
+  | cons y bs ih =>
+    intro pb prev hn h
+    have h0 : G [] (y :: pb) (bandCell lo hi (pb.length + 1) 0 false 0 0 0) :=
+      hcol0 (y :: pb) (by simp at hn ⊢; omega) (by simp)
+    have h1 : RowGood (fun p v => G p (y :: pb) v) [] A (bandRow lo hi A (pb.length + 1) y prev) :=
+      ⟨h0, rowGo_gen G NA NB lo hi hcell y pb (by simp at hn; omega) A [] prev _ (by simpa using hA) h h0⟩
+    have h2 := ih (y :: pb) _ (by simp at hn ⊢; omega) h1
+    simp only [bandRows, List.reverse_cons, List.append_assoc, List.singleton_append]
+    exact h2
+
+include hrow0 hcol0 in
+theorem bandLast_gen (A B : Seq) (hA : A.length ≤ NA) (hB : B.length ≤ NB) :
+    G A.reverse B.reverse ((bandLast lo hi A B).getLastD 0) := by
+  have h0 := row0_gen G NA lo hi hrow0 A [] (by simpa using hA)
+  have h1 := bandRows_gen G NA NB lo hi hcell hcol0 A hA B [] _ (by simpa using hB) h0
+  unfold bandLast
+  match hb : bandRows lo hi A 1 B (bandRow0 lo hi 0 A), h1 with
+  | v :: r, ⟨hv, hr⟩ =>
+    have := tailGood_last (fun p v => G p (B.reverse ++ []) v) A [] v r hv hr
+    simpa using this
+
+end gen
+
+/-! ## exactness of the full band -/
+
+def encP (p : Nat × Nat) : UInt64 := encodeValues p.1 p.2 false
+
+theorem lcsDP_nil_right (m : UInt8 → UInt8 → Bool) (a : Seq) : lcsDP m a [] = (0, a.length) := by
+  cases a <;> simp [lcsDP]
+
+theorem lcsDP_cons_cons (m : UInt8 → UInt8 → Bool) (x y : UInt8) (as bs : Seq) :
+    lcsDP m (x :: as) (y :: bs) =
+      best2 (best2 ((lcsDP m as bs).1 + (if m x y then 1 else 0), (lcsDP m as bs).2 + 1)
+        ((lcsDP m as (y :: bs)).1, (lcsDP m as (y :: bs)).2 + 1))
+        ((lcsDP m (x :: as) bs).1, (lcsDP m (x :: as) bs).2 + 1) := by
+  rw [lcsDP]
+
+theorem lcsDP_bounds (m : UInt8 → UInt8 → Bool) (a b : Seq) :
+    (lcsDP m a b).1 ≤ a.length ∧ (lcsDP m a b).1 ≤ b.length ∧ (lcsDP m a b).2 ≤ a.length + b.length := by
+  have := (lcsDP_opt m a b).1.bounds m; omega
+
+theorem pick_ge (a b c : UInt64) : a ≤ (pick a b c).1 ∧ b ≤ (pick a b c).1 ∧ c ≤ (pick a b c).1 := by
+  unfold pick
+  split
+  · rename_i h; exact ⟨UInt64.le_refl _, h.1, h.2⟩
+  · rename_i h
+    split
+    · rename_i h2
+      refine ⟨?_, UInt64.le_refl _, h2⟩
+      rcases UInt64.le_total a b with h3 | h3
+      · exact h3
+      · have : ¬ (c ≤ a) := fun h4 => h ⟨h3, h4⟩
+        rcases UInt64.le_total c a with h5 | h5
+        · exact absurd h5 this
+        · exact UInt64.le_trans h5 h2
+    · rename_i h2
+      have hbc : b ≤ c := by
+        rcases UInt64.le_total c b with h5 | h5
+        · exact absurd h5 h2
+        · exact h5
+      refine ⟨?_, hbc, UInt64.le_refl _⟩
+      rcases UInt64.le_total a c with h3 | h3
+      · exact h3
+      · exact absurd ⟨UInt64.le_trans hbc h3, h3⟩ h
+
+theorem encP_mono {p q : Nat × Nat} (hp : p.1 < 65536 ∧ p.2 ≤ 65534) (hq : q.1 < 65536 ∧ q.2 ≤ 65534)
+    (h : better p q = true) : encP q ≤ encP p := by
+  unfold encP
+  rw [encode_le_iff q.1 q.2 p.1 p.2 false hq.1 hp.1 hq.2 hp.2]
+  rw [better_iff] at h; omega
+
+theorem max3_unique {P R a b c : UInt64} (hP : P = a ∨ P = b ∨ P = c) (hR : R = a ∨ R = b ∨ R = c)
+    (hPa : a ≤ P) (hPb : b ≤ P) (hPc : c ≤ P) (hRa : a ≤ R) (hRb : b ≤ R) (hRc : c ≤ R) : P = R := by
+  apply UInt64.le_antisymm
+  · rcases hP with h | h | h <;> rw [h] <;> assumption
+  · rcases hR with h | h | h <;> rw [h] <;> assumption
+
+theorem bandCell_exact (lo hi : Int) (pa pb : Seq) (x y : UInt8) (diag up left : UInt64)
+    (hn : pa.length + pb.length + 2 ≤ 30000)
+    (hlo : lo < ((pa.length + 1 : Nat) : Int) - ((pb.length + 1 : Nat) : Int))
+    (hhi : ((pa.length + 1 : Nat) : Int) - ((pb.length + 1 : Nat) : Int) < hi)
+    (hd : diag = encP (lcsDP samenuc pa pb)) (hu : up = encP (lcsDP samenuc (x :: pa) pb))
+    (hl : left = encP (lcsDP samenuc pa (y :: pb))) :
+    bandCell lo hi (pb.length + 1) (pa.length + 1) (samenuc x y) diag up left
+      = encP (lcsDP samenuc (x :: pa) (y :: pb)) := by
+  have bD := lcsDP_bounds samenuc pa pb
+  have bL := lcsDP_bounds samenuc (x :: pa) pb
+  have bU := lcsDP_bounds samenuc pa (y :: pb)
+  simp only [List.length_cons] at bL bU
+  generalize hD : lcsDP samenuc pa pb = D at *
+  generalize hL : lcsDP samenuc (x :: pa) pb = L at *
+  generalize hU : lcsDP samenuc pa (y :: pb) = U at *
+  have hsd : (if samenuc x y then incscore (incpath diag) else incpath diag)
+      = encP (D.1 + (if samenuc x y then 1 else 0), D.2 + 1) := by
+    rw [hd]; unfold encP
+    rw [incpath_encode D.1 D.2 false (by omega) (by omega)]
+    split
+    · rw [incscore_encode D.1 (D.2 + 1) false (by omega) (by omega)]
+    · rfl
+  have hsu : incpath up = encP (L.1, L.2 + 1) := by
+    rw [hu]; unfold encP; rw [incpath_encode L.1 L.2 false (by omega) (by omega)]
+  have hsl : incpath left = encP (U.1, U.2 + 1) := by
+    rw [hl]; unfold encP; rw [incpath_encode U.1 U.2 false (by omega) (by omega)]
+  have hi0 : ¬ pb.length + 1 = 0 := by omega
+  have hj0 : ¬ pa.length + 1 = 0 := by omega
+  have hedge : ¬ (((pa.length + 1 : Nat) : Int) - ((pb.length + 1 : Nat) : Int) = lo ∨
+      ((pa.length + 1 : Nat) : Int) - ((pb.length + 1 : Nat) : Int) = hi) := by omega
+  unfold bandCell
+  simp only [if_neg hi0, if_neg hj0, if_neg hedge, if_pos hhi, if_pos hlo, hsd, hsu, hsl]
+  rw [lcsDP_cons_cons, hD, hL, hU]
+  generalize hDp : (D.1 + (if samenuc x y then 1 else 0), D.2 + 1) = Dp
+  generalize hLp : (L.1, L.2 + 1) = Lp
+  generalize hUp : (U.1, U.2 + 1) = Up
+  have bDp : Dp.1 < 65536 ∧ Dp.2 ≤ 65534 := by rw [← hDp]; simp only; split <;> omega
+  have bLp : Lp.1 < 65536 ∧ Lp.2 ≤ 65534 := by rw [← hLp]; simp only; omega
+  have bUp : Up.1 < 65536 ∧ Up.2 ≤ 65534 := by rw [← hUp]; simp only; omega
+  have bDU : (best2 Dp Up).1 < 65536 ∧ (best2 Dp Up).2 ≤ 65534 := by
+    rcases best2_cases Dp Up with h | h <;> rw [h] <;> assumption
+  have bR : (best2 (best2 Dp Up) Lp).1 < 65536 ∧ (best2 (best2 Dp Up) Lp).2 ≤ 65534 := by
+    rcases best2_cases (best2 Dp Up) Lp with h | h <;> rw [h] <;> assumption
+  have pg := pick_ge (encP Dp) (encP Lp) (encP Up)
+  apply max3_unique (a := encP Dp) (b := encP Lp) (c := encP Up)
+  · exact pick_mem (fun v => v = encP Dp ∨ v = encP Lp ∨ v = encP Up) (.inl rfl) (.inr (.inl rfl)) (.inr (.inr rfl))
+  · rcases best2_cases (best2 Dp Up) Lp with h | h
+    · rcases best2_cases Dp Up with h' | h'
+      · rw [h, h']; exact .inl rfl
+      · rw [h, h']; exact .inr (.inr rfl)
+    · rw [h]; exact .inr (.inl rfl)
+  · exact pg.1
+  · exact pg.2.1
+  · exact pg.2.2
+  · exact encP_mono bR bDp (better_trans (best2_left _ _) (best2_left _ _))
+  · exact encP_mono bR bLp (best2_right _ _)
+  · exact encP_mono bR bUp (better_trans (best2_left _ _) (best2_right _ _))
+
+theorem bandLast_exact (lo hi : Int) (A B : Seq) (hn : A.length + B.length + 1 ≤ 30000)
+    (hlo : lo < -(B.length : Int)) (hhi : (A.length : Int) < hi) :
+    (bandLast lo hi A B).getLastD 0 = encP (lcsDP samenuc A.reverse B.reverse) := by
+  refine bandLast_gen (fun pa pb v => v = encP (lcsDP samenuc pa pb)) A.length B.length lo hi ?_ ?_ ?_ A B
+    (Nat.le_refl _) (Nat.le_refl _)
+  · intro pa pb x y diag up left hpa hpb hd hu hl
+    exact bandCell_exact lo hi pa pb x y diag up left (by omega) (by omega) (by omega) hd hu hl
+  · intro pa hpa
+    rw [lcsDP_nil_right]
+    have hedge : ¬ (((pa.length : Nat) : Int) - ((0 : Nat) : Int) = lo ∨ ((pa.length : Nat) : Int) - ((0 : Nat) : Int) = hi) := by
+      omega
+    unfold bandCell
+    simp only [if_true, if_neg hedge]
+    rw [pick_row0 _ (by omega)]; rfl
+  · intro pb hpb hne
+    have h0 : ¬ pb.length = 0 := fun e => hne (List.eq_nil_of_length_eq_zero e)
+    have hedge : ¬ (((0 : Nat) : Int) - ((pb.length : Nat) : Int) = lo ∨ ((0 : Nat) : Int) - ((pb.length : Nat) : Int) = hi) := by
+      omega
+    have e : lcsDP samenuc [] pb = (0, pb.length) := by rw [lcsDP]
+    rw [e]
+    unfold bandCell
+    simp only [if_neg h0, if_true, if_neg hedge]
+    rw [pick_col0 _ (by omega)]; rfl
+
+/-- the optimum is unique -/
+theorem opt_unique (m : UInt8 → UInt8 → Bool) {a b : Seq} {p q : Nat × Nat}
+    (hp : Ali m a b p.1 p.2) (hp' : ∀ s l, Ali m a b s l → better p (s, l) = true)
+    (hq : Ali m a b q.1 q.2) (hq' : ∀ s l, Ali m a b s l → better q (s, l) = true) : p = q := by
+  have h1 := hp' _ _ hq
+  have h2 := hq' _ _ hp
+  rw [better_iff] at h1 h2
+  simp only at h1 h2
+  exact Prod.ext (by omega) (by omega)
+
+theorem lcsDP_reverse (m : UInt8 → UInt8 → Bool) (a b : Seq) : lcsDP m a.reverse b.reverse = lcsDP m a b := by
+  have h1 := lcsDP_opt m a.reverse b.reverse
+  have h2 := lcsDP_opt m a b
+  exact opt_unique m (h1.1.of_reverse m) (fun s l h => h1.2 s l (h.reverse m)) h2.1 h2.2
+
+theorem lcsDP_samenuc_swap (a b : Seq) : lcsDP samenuc b a = lcsDP samenuc a b := by
+  have h1 := lcsDP_opt samenuc b a
+  have h2 := lcsDP_opt samenuc a b
+  exact opt_unique samenuc h1.1.samenuc_swap (fun s l h => h1.2 s l h.samenuc_swap) h2.1 h2.2
+
+theorem bandLCSAB_exact_unbounded (A B : Seq) (hn : A.length + B.length + 1 ≤ 30000) :
+    bandLCSAB A B (-1) = some (lcsDP samenuc A B) := by
+  unfold bandLCSAB bandGeo
+  have hc : ¬ ((A.length : Int) - (B.length : Int) > 2 * (A.length : Int)) := by omega
+  simp only [show ((-1 : Int) == -1) = true from rfl, if_true, if_neg hc]
+  rw [bandLast_exact _ _ A B hn (by omega) (by omega), lcsDP_reverse]
+  have hb := lcsDP_bounds samenuc A B
+  unfold bandResult encP
+  rw [decode_encode _ _ false (by omega) (by omega)]
+  simp
+
+theorem bandLCS_exact_unbounded (a b : Seq) (hn : a.length + b.length + 1 ≤ 30000) :
+    bandLCS a b (-1) = some (lcsDP samenuc a b) := by
+  unfold bandLCS
+  split
+  · rw [bandLCSAB_exact_unbounded b a (by omega), lcsDP_samenuc_swap]
+  · exact bandLCSAB_exact_unbounded a b hn
+
+/-- the band covers the whole matrix -/
+def wideBand (lA lB : Nat) (e : Int) : Prop :=
+  (lA : Int) - (lB : Int) ≤ e ∧ (lB : Int) < 2 * (e - ((lA : Int) - (lB : Int)) + 1) ∧ (lA : Int) < 2 * (e + 1)
+
+theorem bandLCSAB_exact_wide (A B : Seq) (e : Int) (hn : A.length + B.length + 1 ≤ 30000) (he : e ≠ -1)
+    (hw : wideBand A.length B.length e) : bandLCSAB A B e = some (lcsDP samenuc A B) := by
+  obtain ⟨h1, h2, h3⟩ := hw
+  unfold bandLCSAB bandGeo
+  have hc : ¬ ((A.length : Int) - (B.length : Int) > e) := by omega
+  have he' : (e == -1) = false := by simpa using he
+  simp only [he', Bool.false_eq_true, if_false, if_neg hc]
+  rw [bandLast_exact _ _ A B hn (by omega) (by omega), lcsDP_reverse]
+  have hb := lcsDP_bounds samenuc A B
+  unfold bandResult encP
+  rw [decode_encode _ _ false (by omega) (by omega)]
+  simp
+
+theorem bandLCS_exact_wide (a b : Seq) (e : Int) (hn : a.length + b.length + 1 ≤ 30000) (he : e ≠ -1)
+    (hw : wideBand (max a.length b.length) (min a.length b.length) e) :
+    bandLCS a b e = some (lcsDP samenuc a b) := by
+  unfold bandLCS
+  split
+  · rename_i h
+    have e1 : max a.length b.length = b.length := by omega
+    have e2 : min a.length b.length = a.length := by omega
+    rw [e1, e2] at hw
+    rw [bandLCSAB_exact_wide b a e (by omega) he hw, lcsDP_samenuc_swap]
+  · rename_i h
+    have e1 : max a.length b.length = a.length := by omega
+    have e2 : min a.length b.length = b.length := by omega
+    rw [e1, e2] at hw
+    exact bandLCSAB_exact_wide a b e hn he hw
+
 end ObiVerif.Lcs
